@@ -404,7 +404,35 @@ def scribble(x):
         pass
 
 
-NTYPES = {'i64': np.int64, 'i32': np.int32, 'i16': np.int16}
+NTYPES = {'i64': np.int64, 'i32': np.int32}
+
+
+class memory_cap:
+    """While a fragment beyond sample 2^31 is requested the process may not grow by more than 2 GiB: a library
+    that answers with the envelope from sample 0 fails with MemoryError (reported) instead of taking 16 GiB."""
+
+    def __init__(self, on):
+        self.on = on
+
+    def __enter__(self):
+        if not self.on:
+            return
+        import resource
+        self.old = resource.getrlimit(resource.RLIMIT_AS)
+        try:
+            vm = int(open('/proc/self/statm').read().split()[0]) * resource.getpagesize()
+            cap = vm + (2 << 30)
+            if self.old[1] != resource.RLIM_INFINITY:
+                cap = min(cap, self.old[1])
+            resource.setrlimit(resource.RLIMIT_AS, (cap, self.old[1]))
+        except (OSError, ValueError):
+            self.on = False
+
+    def __exit__(self, *exc):
+        if self.on:
+            import resource
+            resource.setrlimit(resource.RLIMIT_AS, self.old)
+        return False
 
 
 def pristine_batch(jobs):
@@ -989,12 +1017,13 @@ class C01(Spec):
             raise KeyError(k)
 
         try:
-            x = once()
-            if c.get('again') and not ref:
-                scribble(x)
+            with memory_cap(off + n > 1 << 24):
                 x = once()
-            return np.array(x)
-        except (ValueError, ZeroDivisionError) as e:
+                if c.get('again') and not ref:
+                    scribble(x)
+                    x = once()
+                return np.array(x)
+        except (ValueError, ZeroDivisionError, MemoryError) as e:
             return type(e).__name__
 
     def fn_plan(self, c):
